@@ -1,5 +1,6 @@
 mod c07;
 mod c08;
+mod c09;
 mod c20;
 
 fn main() {
@@ -9,6 +10,7 @@ fn main() {
     match args.property.as_str() {
         "C07" => c07::run(&mut run),
         "C08" => c08::run(&mut run),
+        "C09" => c09::run(&mut run),
         "C20" => c20::run(&mut run),
         other => {
             eprintln!("vf-math does not serve {other}");
